@@ -22,6 +22,8 @@ import (
 	"time"
 
 	"github.com/anthdm/hollywood/actor"
+	"github.com/anthdm/hollywood/cluster"
+	"github.com/anthdm/hollywood/remote"
 	"github.com/anthdm/hollywood/ringbuffer"
 )
 
@@ -322,7 +324,71 @@ func scRing(i int) {
 	wg.Wait()
 }
 
+// scClusterNode: one real cluster node (real remote on a loopback port, real self-managed provider and
+// agent). Handshakes and member lists from peers that do not exist arrive while unreachable reports for
+// members and non-members are broadcast, and the public cluster API is queried from other goroutines:
+// the provider and the agent own their state, everybody else (the provider's event-stream child, callers
+// of Members()/HasKind()/GetActiveByID()) must go through messages.
+var nodePort atomic.Int32
+
+func scClusterNode(i int) {
+	addr := fmt.Sprintf("127.0.0.1:%d", 21000+os.Getpid()%4000+int(nodePort.Add(1))%900)
+	r := remote.New(addr, remote.NewConfig())
+	e, err := actor.NewEngine(actor.NewEngineConfig().WithRemote(r))
+	if err != nil {
+		return
+	}
+	c, err := cluster.New(cluster.NewConfig().WithEngine(e).WithID("A").WithRequestTimeout(2 * time.Second))
+	if err != nil {
+		return
+	}
+	c.RegisterKind("k", func() actor.Receiver { return &probing{p: &probe{}} }, cluster.NewKindConfig())
+	c.Start()
+	prov := actor.NewPID(addr, "provider/A")
+	peers := []*cluster.Member{
+		{ID: "B", Host: "127.0.0.1:1", Kinds: []string{"k"}}, {ID: "C", Host: "127.0.0.1:2", Kinds: []string{"k"}}, {ID: "D", Host: "127.0.0.1:3"},
+	}
+	var wg sync.WaitGroup
+	wg.Add(4)
+	go func() {
+		defer wg.Done()
+		for k := 0; k < 12; k++ {
+			m := peers[k%len(peers)]
+			if k%3 == 0 {
+				e.Send(prov, &cluster.Members{Members: []*cluster.Member{m}})
+			} else {
+				e.SendWithSender(prov, &cluster.Handshake{Member: m}, actor.NewPID(m.Host, "provider/"+m.ID))
+			}
+		}
+	}()
+	go func() {
+		defer wg.Done()
+		for k := 0; k < 12; k++ {
+			a := []string{"127.0.0.1:1", "127.0.0.1:9", "127.0.0.1:2", "10.9.9.9:4000"}[k%4]
+			e.BroadcastEvent(actor.RemoteUnreachableEvent{ListenAddr: a})
+		}
+	}()
+	go func() {
+		defer wg.Done()
+		for k := 0; k < 6; k++ {
+			c.Members()
+			c.HasKind("k")
+			c.GetActiveByID("k/1")
+		}
+	}()
+	go func() {
+		defer wg.Done()
+		c.Activate("k", cluster.NewActivationConfig().WithID("1"))
+		c.Deactivate(actor.NewPID(addr, "k/1"))
+	}()
+	wg.Wait()
+	time.Sleep(5 * time.Millisecond)
+	c.Stop()
+	r.Stop().Wait()
+}
+
 var scenarios = map[string]func(int){
+	"cluster-node": scClusterNode,
 	"inbox": scInbox, "engine-lifecycle": scEngineLifecycle, "registry": scRegistry,
 	"event-stream": scEventStream, "children": scChildren, "request": scRequest, "ring": scRing,
 }
